@@ -26,11 +26,18 @@ Definition lift_found (o : option bytes) : probe_result :=
 Lemma default_name_length : length default_name = 7.
 Proof. reflexivity. Qed.
 
+(** the two sizes the loop depends on, as regenerated from the C and limits.h: the statement's bound of 254
+    octets is NAME_MAX - 1 (room for the "*"), and a name that passes openat() always fits fnbuf *)
+Lemma name_max_val : NAME_MAX = 255.
+Proof. reflexivity. Qed.
+Lemma fnbuf_val : N.to_nat ROUTE_FNBUF_SIZE - 1 = 256.
+Proof. reflexivity. Qed.
+
 Lemma probe_default fuel files :
   1 <= fuel -> probe fuel files default_name None = Ok (lift_found (first_file files [default_name])).
 Proof.
   intros Hf. destruct fuel as [|f]; [lia|]. cbn [probe first_file].
-  rewrite default_name_length. cbn [Nat.ltb Nat.leb NAME_MAX].
+  rewrite default_name_length, name_max_val. change (Nat.ltb 255 7) with false. cbn iota.
   destruct (assoc default_name files); reflexivity.
 Qed.
 
@@ -41,11 +48,12 @@ Lemma probe_spec fuel : forall files fn cp,
 Proof.
   induction fuel as [|f IH]; intros files fn cp Hfuel Hfn Hcp; [lia|].
   cbn [probe first_file].
-  assert (Hlt : Nat.ltb NAME_MAX (length fn) = false) by (apply Nat.ltb_ge; unfold NAME_MAX; lia).
+  assert (Hlt : Nat.ltb NAME_MAX (length fn) = false) by (apply Nat.ltb_ge; rewrite name_max_val; lia).
   rewrite Hlt. destruct (assoc fn files) as [c|]; [reflexivity|].
   destruct (strchr cp DOT) as [d|] eqn:Es.
   - destruct (strchr_dot_some cp d Es) as (r & -> & Hs & Hl).
-    assert (Hle : Nat.leb 256 (length (DOT :: r)) = false) by (apply Nat.leb_gt; lia).
+    assert (Hle : Nat.leb (N.to_nat ROUTE_FNBUF_SIZE - 1) (length (DOT :: r)) = false)
+      by (rewrite fnbuf_val; apply Nat.leb_gt; lia).
     rewrite Hle. rewrite Hs. cbn [map app tl]. cbn [length] in Hl.
     apply IH; [lia|cbn [length]; lia|lia].
   - rewrite (strchr_dot_none cp Es). cbn [map app]. apply probe_default. lia.
